@@ -17,44 +17,9 @@
    (object, check) pairs. *)
 From PV Require Export Model.TypeCheck.
 
-(* full structural equality on checks (predicates by identity, indirection included) *)
-Fixpoint chk_eqf (a b : chk) {struct a} : bool :=
-  match a, b with
-  | CRep t p i, CRep t' p' i' => ty_eqf t t' && opred_eqb p p' && ispec_eqb i i'
-  | CNamed n, CNamed m => bytes_eqb n m
-  | _, _ => false
-  end
-with ty_eqf (a b : ty) {struct a} : bool :=
-  match a, b with
-  | TAny, TAny => true
-  | TPrim p, TPrim q => prim_eqb p q
-  | TArr e s, TArr e' s' => chk_eqf e e' && onat_eqb s s'
-  | THet l, THet l' =>
-    (fix go (l l' : list chk) := match l, l' with
-       | [], [] => true | x :: r, y :: r' => chk_eqf x y && go r r' | _, _ => false end) l l'
-  | TDict l st, TDict l' st' =>
-    (fix go (l l' : list dent) := match l, l' with
-       | [], [] => true | x :: r, y :: r' => dent_eqf x y && go r r' | _, _ => false end) l l'
-    && match st, st' with
-       | None, None => true
-       | Some (c, o), Some (c', o') => chk_eqf c c' && kspec_eqb o o'
-       | _, _ => false
-       end
-  | TStream l, TStream l' =>
-    (fix go (l l' : list dent) := match l, l' with
-       | [], [] => true | x :: r, y :: r' => dent_eqf x y && go r r' | _, _ => false end) l l'
-  | TDisj l, TDisj l' =>
-    (fix go (l l' : list chk) := match l, l' with
-       | [], [] => true | x :: r, y :: r' => chk_eqf x y && go r r' | _, _ => false end) l l'
-  | _, _ => false
-  end
-with dent_eqf (a b : dent) {struct a} : bool :=
-  match a, b with
-  | DEnt k c o, DEnt k' c' o' => bytes_eqb k k' && chk_eqf c c' && kspec_eqb o o'
-  end.
-
-Definition pend_eqf (a b : pend) := obj_eqb (fst a) (fst b) && chk_eqf (snd a) (snd b).
-Definition memf (p : pend) (l : list pend) := existsb (pend_eqf p) l.
+(* membership up to the structural equality of Model/TypeCheck.v (predicates by identity,
+   indirection included) *)
+Definition memf (p : pend) (l : list pend) := existsb (pend_eqb p) l.
 
 Section Spec.
 Variable opq : N -> obj -> bool.
